@@ -932,6 +932,8 @@ def _run(ctx, lean_ok):
             for kind in ncase:
                 ctx.oblige('correspondence %s on %d cases (rel %g)' % (names.get(kind, kind), ncase[kind], TOL['gen_vs_source']),
                            nbad.get(kind, 0) == 0, '%d cases disagree' % nbad.get(kind, 0))
+    for v in ctx.violations:
+        ctx.count('predicate failed: ' + v['key'])
     ctx.notes.append('worst deviations: ' + ', '.join('%s=%.3g' % kv for kv in sorted(worst.items())))
     ctx.notes.append('named hypotheses sampled on the real library: density scale invariance worst rel %.3g; flash conservation '
                      'worst %.3g of total flux; flash hand-off m/sum(m) vs mass_frac(xi) worst abs %.3g'
